@@ -586,6 +586,10 @@ func fsFaultRules(c *Ctx, pr *PropertyRun, prop string) {
 		pr.Rules = append(pr.Rules, fr)
 		c01Forced(c, fr, runs)
 		truncateRule(c, pr, "C01", runs)
+		rc := NewRule("C01", "C01.refusal-codes", "with no failing operating-system call a request is refused only with the statuses the statement gives for that method (400/404/405/412/415 as applicable)")
+		rc.Exhaustive = true
+		pr.Rules = append(pr.Rules, rc)
+		codeDecidedRefusals(c, rc, runs, nil)
 	case "C17":
 		r := NewRule("C17", "C17.no-host-path", "no response text, header or content name contains the host path, for every method, OS call and errno class (E2 fault exploration with a host-path taint bit on strings)")
 		r.Exhaustive = true
@@ -758,6 +762,19 @@ func c01Forced(c *Ctx, r *RuleResult, runs []*fsRun) {
 	seen := map[string]bool{}
 	for _, run := range runs {
 		_, feasible, faults, forced := run.replay()
+		if feasible && faults == 0 && len(forced) == 0 && strings.HasPrefix(run.Status, "5") {
+			// nothing failed at all and the answer is still 5xx: some test of
+			// the code's own (on a name, a path it computed) turned a
+			// well-formed request on a healthy file system into a server error
+			r.Role("fault-free-run")
+			k := run.Method + "|no failing call|got=" + run.Status
+			if !seen[k] {
+				seen[k] = true
+				r.Ob(false)
+				r.Violation("fault-free-5xx|"+k, "-", fmt.Sprintf("%s is answered %s although no operating-system call failed: a test in the code itself turns a request that names a resource on a healthy file system into a server error. Trace: %s", run.Method, run.Status, run.describe()), nil)
+			}
+			continue
+		}
 		if !feasible || faults > 0 || len(forced) == 0 {
 			continue
 		}
@@ -822,6 +839,57 @@ func deepHostPath(in *Interp, v Val, where string, depth int) (string, bool) {
 		}
 	}
 	return "", false
+}
+
+// codeDecidedRefusals: the statuses with which a request is refused when NO
+// operating-system call fails (the code decides from what it observed: the
+// state of the resources and the headers). The table is the statement's:
+// anything else — a 409 for a failed precondition, a 403 out of nowhere — is
+// a wrong answer.
+var allowedRefusals = map[string]map[string]string{
+	"OPTIONS":  {"400": "unmappable path"},
+	"GET":      {"400": "unmappable path", "404": "missing resource", "405": "GET of a collection"},
+	"HEAD":     {"400": "unmappable path", "404": "missing resource", "405": "HEAD of a collection"},
+	"PROPFIND": {"400": "unmappable path, bad Depth, bad body", "404": "missing resource"},
+	"PUT":      {"400": "unmappable path, tag that is not a quoted string", "412": "failed If-Match / If-None-Match"},
+	"DELETE":   {"400": "unmappable path, tag that is not a quoted string", "404": "missing resource", "412": "failed If-Match / If-None-Match"},
+	"MKCOL":    {"400": "unmappable path", "405": "the resource already exists", "415": "MKCOL with a body"},
+	"COPY":     {"400": "unmappable path, bad Depth/Overwrite/Destination", "404": "missing source", "412": "Overwrite F and the destination exists"},
+	"MOVE":     {"400": "unmappable path, bad Depth/Overwrite/Destination", "404": "missing source", "412": "Overwrite F and the destination exists"},
+}
+
+func codeDecidedRefusals(c *Ctx, r *RuleResult, runs []*fsRun, methods map[string]bool) {
+	seen := map[string]bool{}
+	for _, run := range runs {
+		if methods != nil && !methods[run.Method] {
+			continue
+		}
+		if !strings.HasPrefix(run.Status, "4") {
+			continue
+		}
+		_, feasible, faults, forced := run.replay()
+		if !feasible || faults > 0 || len(forced) > 0 {
+			continue
+		}
+		r.Role("code-decided-refusal")
+		k := run.Method + "|" + run.Status
+		if seen[k] {
+			continue
+		}
+		seen[k] = true
+		_, ok := allowedRefusals[run.Method][run.Status]
+		r.Ob(ok)
+		r.Sample(map[string]interface{}{"method": run.Method, "status": run.Status, "allowed": ok, "trace": run.describe()})
+		if !ok {
+			var al []string
+			for st, why := range allowedRefusals[run.Method] {
+				al = append(al, st+" ("+why+")")
+			}
+			sort.Strings(al)
+			r.Violation("refusal-code|"+k, "-", fmt.Sprintf("%s is refused with %s although no operating-system call failed; with nothing wrong in the file system the statement knows only %s for %s. Trace: %s", run.Method, run.Status, strings.Join(al, ", "), run.Method, run.describe()), nil)
+		}
+	}
+	r.RequireRole("code-decided-refusal")
 }
 
 func c17Leaks(c *Ctx, r *RuleResult, runs []*fsRun) {
